@@ -321,10 +321,10 @@ ERROR_CODES = {
 }
 
 
-def _mk_error(code):
+def _mk_error(code, prop='C04', label=''):
     clsname, excname = ERROR_CODES[code]
 
-    @harness('C04', 'ERROR-%#06x' % code, functions=[PR + 'ErrorMessage.recv_body', PR + clsname + '.recv_error_info', PR + clsname + '.to_exception'], native='contracts.native.c04:replay')
+    @harness(prop, '%sERROR-%#06x' % (label, code), functions=[PR + 'ErrorMessage.recv_body', PR + clsname + '.recv_error_info', PR + clsname + '.to_exception'], native='contracts.native.c04:replay')
     def h(vc):
         length_mode(vc)
         import cassandra
